@@ -78,11 +78,17 @@ def run_case(c):
     Zraw = rng.standard_normal((nat, 3, 3)) + 2.0 * np.array([np.eye(3) * (1 if i % 2 == 0 else -1) for i in range(nat)])
     A = rng.standard_normal((3, 3))
     eraw = A @ A.T + 3.0 * np.eye(3)
-    params = {"born": Zraw.copy(), "dielectric": eraw.copy(), "factor": c["factor"], "method": c["method"]}
+    # Born charges, dielectric tensor and directions are handed over in whatever container / memory layout (list, Fortran order, strided ...)
+    from vlib.gen.layout import relayout
+
+    lrng = np.random.default_rng(c.get("seed", 0) + 13)
+    b_in, bkind = relayout(Zraw, lrng)
+    e_in, ekind = relayout(eraw, lrng)
+    params = {"born": b_in, "dielectric": e_in, "factor": c["factor"], "method": c["method"]}
     ph.nac_params = params
     dm = ph.dynamical_matrix
     Z, eps, f = np.array(dm.born), np.array(dm.dielectric_constant), c["factor"]
-    viol, obs = [], {}
+    viol, obs = [], {"born_layout_" + bkind: 1}
 
     def bad(kind, msg, **kw):
         if len(viol) < 8:
@@ -115,7 +121,7 @@ def run_case(c):
         maxterm = max(maxterm, np.abs(T).max())
         tolz = max((1e-9 if c["method"] == "wang" else 1e-7) * max(np.abs(T).max(), dds * 1e-3), 1e-13 * np.abs(D0).max())  # floor: round-off of D itself
         for sfac in (1.0, 1e-3, 1e3):
-            dm.run([0, 0, 0], q_direction=qd * sfac)
+            dm.run([0, 0, 0], q_direction=relayout(qd * sfac, lrng)[0])
             D = np.array(dm.dynamical_matrix)
             e = float(np.abs(D - D0 - T).max())
             obs["n_gamma_dir"] = obs.get("n_gamma_dir", 0) + 1
@@ -124,7 +130,7 @@ def run_case(c):
                     scaled=sfac)
                 break
         # through run_qpoints(nac_q_direction=...)
-        ph.run_qpoints([[0, 0, 0]], with_dynamical_matrices=True, nac_q_direction=qd)
+        ph.run_qpoints([[0, 0, 0]], with_dynamical_matrices=True, nac_q_direction=relayout(qd, lrng)[0])
         D = np.array(ph.get_qpoints_dict()["dynamical_matrices"][0])
         e = float(np.abs(D - D0 - T).max())
         obs["n_gamma_dir_qpoints"] = obs.get("n_gamma_dir_qpoints", 0) + 1
